@@ -410,3 +410,24 @@ package engine
 //@   update runFailed = err != nil
 //@ optional site (*engine.ControllerEngine).Stop(_, _, $n)
 //@   assert [C13:controller-stopped-by-its-runner-only-after-a-failed-run] runFailed && $n == name
+
+// A watch source remembers the handler registration Start made and forgets it only once the
+// informer has removed exactly that registration: a failed removal leaves the source stoppable
+// again, so a retried Stop cannot report success while the handler is still registered.
+//@ func (*engine.StoppableSource).Stop
+//@ props C13
+//@ frame writes s
+//@ ghost removed bool = false
+//@ optional site (cache.Informer).RemoveEventHandler(_, $reg)
+//@   assert [C13:removes-the-registration-made-by-start] $reg == old(s.reg)
+//@   update removed = err == nil
+//@ ensures [C13:registration-forgotten-only-once-removed] old(s.reg) != nil ==> ((s.reg == nil) <==> removed)
+//@ ensures [C13:stop-succeeds-only-without-a-live-handler] err == nil ==> s.reg == nil
+//@ ensures [C13:failed-stop-keeps-the-registration] err != nil ==> s.reg == old(s.reg)
+
+//@ func (*engine.StoppableSource).Start
+//@ props C13
+//@ frame writes s
+//@ let $reg = result (cache.Informer).AddEventHandler
+//@ ensures [C13:started-source-remembers-its-registration] err == nil ==> s.reg == $reg
+//@ ensures [C13:failed-start-registers-nothing-new] err != nil ==> s.reg == old(s.reg)
